@@ -344,9 +344,21 @@ def _stateless_by_fingerprint(sp, agg):
     assume_params(agg, m)
     A = make(agg, m)
     before = _fingerprint(A)
-    A(gram_only(G))
+    J = gram_only(G)
+    other_dtype = choice(2, "earlier_call_in_other_dtype") == 1
+    if other_dtype:
+        J.dtype = torch.float64
+    A(J)
     after = _fingerprint(A)
-    return [Ob(f"call_leaves_aggregator_state_unchanged[{agg}]", before == after, lambda model: dict(kind="stateless", agg=agg, params=params_cex(model, agg, m)))]
+    obs = [Ob(f"call_leaves_aggregator_state_unchanged[{agg}]", before == after, lambda model: dict(kind="stateless", agg=agg, other_dtype=other_dtype, params=params_cex(model, agg, m)))]
+    if other_dtype:
+        try:
+            out = A(gram_only(G))
+            obs.append(Ob(f"later_call_in_other_dtype_unaffected[{agg}]", out.dtype is torch.float32 and out._w.dtype is torch.float32,
+                          lambda model: dict(kind="stateless", agg=agg, other_dtype=True, params=params_cex(model, agg, m))))
+        except (RuntimeError, TypeError) as e:
+            obs.append(Ob(f"no_exception_after_earlier_call[{agg}]", False, lambda model, e=e: dict(kind="stateless", agg=agg, other_dtype=True, params=params_cex(model, agg, m), why=str(e))))
+    return obs
 
 
 def case_stateless(sp, agg):
@@ -378,17 +390,27 @@ def case_stateless(sp, agg):
         G1, G2 = free_gram(m, "g"), free_gram(m, "h")
         J1, J2, J2b = gram_only(G1), gram_only(G2), gram_only(G2)
     assume_params(agg, m)
+    # the earlier call may also have been made in the OTHER floating dtype (same aggregator instance, configured vectors converted by the user)
+    other_dtype = choice(2, "earlier_call_in_other_dtype") == 1 and agg not in ("constant", "dualproj")
+    if other_dtype:
+        J1.dtype = torch.float64
     A = make(agg, m)
     torch.manual_seed(1)
-    A(J1)
+    try:
+        A(J1)
+    except (RuntimeError, TypeError) as e:
+        return [Ob(f"no_exception[{agg}]", False, lambda model, e=e: dict(kind="stateless", agg=agg, other_dtype=other_dtype, params=params_cex(model, agg, m), why=str(e)))]
     torch.manual_seed(2)
-    wa = A(J2)._w._flat()
+    try:
+        wa = A(J2)._w._flat()
+    except (RuntimeError, TypeError) as e:
+        return [Ob(f"no_exception_after_earlier_call[{agg}]", False, lambda model, e=e: dict(kind="stateless", agg=agg, other_dtype=other_dtype, params=params_cex(model, agg, m), why=str(e)))]
     _second_run_candidates([e for e in torch.EVENTS], lambda v: list(v))
     Bagg = make(agg, m)
     torch.manual_seed(2)
     wb = Bagg(J2b)._w._flat()
     def cex(model):
-        return dict(kind="stateless", agg=agg, params=params_cex(model, agg, m))
+        return dict(kind="stateless", agg=agg, other_dtype=other_dtype, params=params_cex(model, agg, m))
     if any(isinstance(x, Sp) for x in wa + wb):
         return [Ob(f"finite_result[{agg}]", False, cex)]
     if G2 is None:
